@@ -318,7 +318,7 @@ def gen_e2e(rng, quick, count, nmax):
     """end-to-end cases: dict(meth, solver, n, d, k, table(float rows), rank, euclid, gen)"""
     cases = []
     kinds = ["euclid_eq", "euclid_lt", "euclid_gt", "collinear", "simplex", "offset", "dupes", "noneuclid",
-             "kpca_lin", "kpca_gauss", "kpca_poly", "isomap", "lattice"]
+             "kpca_lin", "kpca_gauss", "kpca_poly", "isomap", "lattice", "noneuclid_neg"]
     for t in range(count):
         kind = kinds[t % len(kinds)]
         big = t % 17 == 5
@@ -353,6 +353,15 @@ def gen_e2e(rng, quick, count, nmax):
             T = [[0.0 if i == j else s for j in range(n)] for i in range(n)]
             d = rng.randint(1, n - 1)
             c.update(table=T, n=n, d=d, rank=n - 1, euclid=True)
+        elif kind == "noneuclid_neg":
+            # non-Euclidean dissimilarities with (almost) every eigenpair retained: negative eigenvalues are
+            # retained and must be clamped (case split of Mds_sqrt_scaling_clamped)
+            n = min(n, 10)
+            T = [[0.0] * n for _ in range(n)]
+            for i in range(n):
+                for j in range(i + 1, n):
+                    T[i][j] = T[j][i] = float(rng.randint(1, 9))
+            c.update(table=T, n=n, d=n - 1)
         elif kind == "noneuclid":
             T = [[0.0] * n for _ in range(n)]
             for i in range(n):
@@ -989,7 +998,7 @@ def run(ctx):
     cases += gen_exact(rng, 120 if quick else 1200)
     cases += gen_generic_matrix(rng, 30 if quick else 300)
     cases += gen_tri(rng, 12 if quick else 100)
-    cases += gen_e2e(rng, quick, 91 if quick else 450, 24 if quick else 48)
+    cases += gen_e2e(rng, quick, 98 if quick else 448, 24 if quick else 48)
     n = evaluate_all(ctx, exe, mexe, tab, cases, stats)
     ctx.note("wall: cases %.0fs (extracted model %.0fs, harness %.0fs)" % (ctx.elapsed() - t_ext, TIMES["model"], TIMES["impl"]))
     if tab is not None:
